@@ -45,7 +45,7 @@ def gen_host(seed, mode, libpath, rounds=None):
         for r in rounds:
             for _ in range(r):
                 e('    acc = call_plug(acc);')
-            e('    acc ^= between(acc);')
+            e('    acc = acc.wrapping_mul(0x9E3779B97F4A7C15) ^ between(acc);')
         e('    println!("{:016x}", acc);')
         e('}')
     else:
@@ -69,7 +69,7 @@ def gen_host(seed, mode, libpath, rounds=None):
                 e('        acc = call_plug(f, acc);')
             e('        unsafe { dlclose(h); }')
             e('    }')
-            e('    acc ^= between(acc);')
+            e('    acc = acc.wrapping_mul(0x9E3779B97F4A7C15) ^ between(acc);')
         e('    println!("{:016x}", acc);')
         e('}')
     side = {'mode': mode, 'rounds': rounds, 'total_calls': sum(rounds)}
